@@ -33,6 +33,8 @@ RULE = (
     'al farm.Hand; proceed only at rest in running and for the same revisio'
     'n) and reset (fe.api.cmd_reset; refused without effect unless at rest '
     'in running). '
+    ' reset is also sent through the legacy endpoint fe.app.schedule_reset.'
+    ' '
 )
 ASSUMPTIONS = [
     'callbacks of background steps are serialised on the harness thread (in '
